@@ -262,3 +262,98 @@ Example C13_nonvacuous_complete :
   own s (SU, true) = Some (WE, (true, false, true)) /\
   own ex_split (SU, true) = own s (SU, true).
 Proof. cbv zeta. split; [apply exact_coverb_spec|]; vm_compute; auto. Qed.
+
+(* ================================================================== the selection criterion itself
+   (Model/SelCrit.v: selection_criteria.py + _combination_selection_criteria / _get_error_metrics; real-number
+   instance, Proofs/SelCritProofs.v; the float instance Model/SelCritF.v is what the correspondence runs).
+   Kept at the end of the file: a failure here leaves the theorems above counted. *)
+From Coq Require Import Reals.
+From V Require Import Model.Num Model.NumR Model.SelCrit Proofs.SelCritProofs.
+Local Open Scope R_scope.
+
+(* the default criterion (BIC) as coded, for loss > 0 and N > 0:
+   (-2 * (-N/2 * (ln 2pi + ln(loss/N) + 1)) + c0 * K * ln(N)**d0) / N  =  ln 2pi + ln(loss/N) + 1 + c0 K ln(N)**d0 / N;
+   and it is -inf when loss <= 0 (neg_log_likelihood returns +inf) *)
+Theorem C13_default_criterion_closed_form : forall c0 d0 loss tss n k, 0 < loss -> 0 < n ->
+  R_selection_criteria C_BIC c0 d0 loss tss n k = Fin (bic_closed c0 d0 loss n k).
+Proof. exact bic_value. Qed.
+Print Assumptions C13_default_criterion_closed_form.
+
+Theorem C13_default_criterion_nonpositive_loss : forall c0 d0 loss tss n k, loss <= 0 ->
+  R_selection_criteria C_BIC c0 d0 loss tss n k = NInf.
+Proof. exact bic_nonpositive_loss. Qed.
+Print Assumptions C13_default_criterion_nonpositive_loss.
+
+(* N fixed: strictly increasing in the loss (so at equal complexity the smaller loss is preferred) *)
+Theorem C13_criterion_increasing_in_loss : forall c0 d0 tss1 tss2 n k l1 l2, 0 < n -> l1 < l2 -> 0 < l2 ->
+  R_ext_ltb (R_selection_criteria C_BIC c0 d0 l1 tss1 n k) (R_selection_criteria C_BIC c0 d0 l2 tss2 n k) = true.
+Proof. exact bic_loss_increasing_l. Qed.
+Print Assumptions C13_criterion_increasing_in_loss.
+
+(* N >= 1, penalty multiplier >= 0 (the settings enforce ge=0): increasing in the number of coefficients;
+   strictly when N > 1 and the multiplier is positive (so at equal loss the simpler split is preferred) *)
+Theorem C13_criterion_increasing_in_coefficients : forall c0 d0 tss1 tss2 n loss k1 k2,
+  1 <= n -> 0 <= c0 -> k1 <= k2 ->
+  R_ext_ltb (R_selection_criteria C_BIC c0 d0 loss tss2 n k2) (R_selection_criteria C_BIC c0 d0 loss tss1 n k1) = false.
+Proof. exact bic_k_increasing_l. Qed.
+Print Assumptions C13_criterion_increasing_in_coefficients.
+
+Theorem C13_criterion_strict_in_coefficients : forall c0 d0 tss1 tss2 n loss k1 k2,
+  1 < n -> 0 < c0 -> 0 < loss -> k1 < k2 ->
+  R_ext_ltb (R_selection_criteria C_BIC c0 d0 loss tss1 n k1) (R_selection_criteria C_BIC c0 d0 loss tss2 n k2) = true.
+Proof. exact bic_k_strict_l. Qed.
+Print Assumptions C13_criterion_strict_in_coefficients.
+
+(* the penalty terms of AIC / CAIC / BIC / SABIC / AICc are the coded expressions *)
+Theorem C13_penalties_as_coded : forall c0 d0 n k,
+  pen_aic RNum Rpow c0 d0 k = c0 * 2 * Rpow k d0 /\
+  pen_caic RNum ln Rpow c0 d0 n k = c0 * k * Rpow (ln n + 1) d0 /\
+  pen_bic RNum ln Rpow c0 d0 n k = c0 * k * Rpow (ln n) d0 /\
+  pen_sabic RNum ln Rpow c0 d0 n k = c0 * k * Rpow (ln ((n + 2) / 24)) d0 /\
+  (0 < n - k - 1 ->
+   pen_aicc RNum Rpow R_tiny c0 d0 n k = c0 * Rpow (2 * k + 2 * k * (k + 1) / (n - k - 1)) d0) /\
+  (n - k - 1 <= 0 ->
+   pen_aicc RNum Rpow R_tiny c0 d0 n k = c0 * Rpow (2 * k + 2 * k * (k + 1) / R_tiny) d0).
+Proof. exact penalties_as_coded_l. Qed.
+Print Assumptions C13_penalties_as_coded.
+
+(* composed: _best_combination run on the CODED criterion of every candidate (whatever the criterion type,
+   computed from the components' N / TSS / wSSE with loss = wRMSE / wRMSE_base) selects a candidate whose
+   criterion is not +inf and that no candidate undercuts *)
+Theorem C13_selected_minimises_coded_criterion : forall ty c0 d0 base fits combos s,
+  best (ext R) R_ext_ltb PInf (table ty c0 d0 base fits combos) = Some s ->
+  In s combos /\ crit_of ty c0 d0 base fits s <> PInf /\
+  forall s', In s' combos -> R_ext_ltb (crit_of ty c0 d0 base fits s') (crit_of ty c0 d0 base fits s) = false.
+Proof. exact selected_minimises_l. Qed.
+Print Assumptions C13_selected_minimises_coded_criterion.
+
+(* default criterion: among candidates with the same number of components (and days) the selected split has the
+   smallest loss; and a candidate whose loss is no larger cannot have fewer components *)
+Theorem C13_selected_smallest_loss_at_equal_complexity : forall c0 d0 base fits combos s s',
+  best (ext R) R_ext_ltb PInf (table C_BIC c0 d0 base fits combos) = Some s -> In s' combos ->
+  0 < R_sum_n (fits s) -> R_sum_n (fits s') = R_sum_n (fits s) -> R_count (fits s') = R_count (fits s) ->
+  0 < R_combo_loss base (fits s') ->
+  R_combo_loss base (fits s) <= R_combo_loss base (fits s').
+Proof. exact selected_bic_smallest_loss_l. Qed.
+Print Assumptions C13_selected_smallest_loss_at_equal_complexity.
+
+Theorem C13_selected_simplest_at_no_larger_loss : forall c0 d0 base fits combos s s',
+  best (ext R) R_ext_ltb PInf (table C_BIC c0 d0 base fits combos) = Some s -> In s' combos ->
+  0 < c0 -> 1 < R_sum_n (fits s) -> R_sum_n (fits s') = R_sum_n (fits s) ->
+  0 < R_combo_loss base (fits s') -> R_combo_loss base (fits s') <= R_combo_loss base (fits s) ->
+  R_count (fits s) <= R_count (fits s').
+Proof. exact selected_bic_simplest_l. Qed.
+Print Assumptions C13_selected_simplest_at_no_larger_loss.
+
+(* non-vacuity: concrete numbers satisfy the hypotheses of the monotonicity theorems, and a table on which
+   best selects exists (one candidate; the RMSE criterion is always finite) *)
+Example C13_nonvacuous_criterion :
+  R_ext_ltb (R_selection_criteria C_BIC (24/100) 2 (1/2) 1000 365 3) (R_selection_criteria C_BIC (24/100) 2 1 1000 365 3) = true /\
+  R_ext_ltb (R_selection_criteria C_BIC (24/100) 2 1 1000 365 1) (R_selection_criteria C_BIC (24/100) 2 1 1000 365 3) = true.
+Proof.
+  split; [apply bic_loss_increasing_l|apply bic_k_strict_l]; lra.
+Qed.
+
+Example C13_nonvacuous_selected : forall base l,
+  best (ext R) R_ext_ltb PInf (table C_RMSE 1 1 base (fun _ => l) ["fw-su_sh_wi"%string]) = Some "fw-su_sh_wi"%string.
+Proof. intros base l. reflexivity. Qed.
